@@ -6,6 +6,19 @@ Only well-formed DWARF is produced.  32-bit DWARF format, address size 8 unless 
 """
 import struct
 
+# byte order of the DWARF sections being written: set by Forest.layout from the forest's `big` attribute (the
+# ELF header written by build_file says the same)
+_BIG = False
+
+
+def _E():
+    return ">" if _BIG else "<"
+
+
+def _BO():
+    return "big" if _BIG else "little"
+
+
 # ---- DWARF constants (numbers from the DWARF standard; names only for readability) ----
 TAG = dict(array_type=0x01, class_type=0x02, enumeration_type=0x04, formal_parameter=0x05, imported_declaration=0x08,
            label=0x0a, lexical_block=0x0b, member=0x0d, pointer_type=0x0f, reference_type=0x10, compile_unit=0x11,
@@ -232,10 +245,10 @@ class Forest:
         pre = uleb(f) if a.indirect else b""
         F = FORM
         if f == F["addr"]:
-            return pre + v.to_bytes(unit.address_size, "little")
+            return pre + v.to_bytes(unit.address_size, _BO())
         if f in (F["data1"], F["data2"], F["data4"], F["data8"]):
             n = {F["data1"]: 1, F["data2"]: 2, F["data4"]: 4, F["data8"]: 8}[f]
-            return pre + (v & ((1 << (8 * n)) - 1)).to_bytes(n, "little")
+            return pre + (v & ((1 << (8 * n)) - 1)).to_bytes(n, _BO())
         if f == F["data16"]:
             assert len(v) == 16
             return pre + v
@@ -247,9 +260,9 @@ class Forest:
             assert b"\0" not in v
             return pre + v + b"\0"
         if f == F["strp"]:
-            return pre + struct.pack("<I", self.str_offset(v))
+            return pre + struct.pack(_E() + "I", self.str_offset(v))
         if f == F["line_strp"]:
-            return pre + struct.pack("<I", self.str_offset(v, True))
+            return pre + struct.pack(_E() + "I", self.str_offset(v, True))
         if f == F["flag"]:
             return pre + bytes([v & 0xff])
         if f == F["flag_present"]:
@@ -257,21 +270,21 @@ class Forest:
         if f == F["implicit_const"]:
             return pre
         if f == F["sec_offset"]:
-            return pre + struct.pack("<I", v)
+            return pre + struct.pack(_E() + "I", v)
         if f == F["block1"]:
             return pre + bytes([len(v)]) + v
         if f == F["block2"]:
-            return pre + struct.pack("<H", len(v)) + v
+            return pre + struct.pack(_E() + "H", len(v)) + v
         if f == F["block4"]:
-            return pre + struct.pack("<I", len(v)) + v
+            return pre + struct.pack(_E() + "I", len(v)) + v
         if f in (F["block"], F["exprloc"]):
             return pre + uleb(len(v)) + v
         if f in (F["GNU_ref_alt"], F["ref_sup4"]):
             assert not final or v.offset is not None, "the supplementary forest is laid out first"
-            return pre + struct.pack("<I", v.offset or 0)
+            return pre + struct.pack(_E() + "I", v.offset or 0)
         if f == F["ref_sig8"]:
             assert not final or (v.unit.signature is not None and v is v.unit.root.children[0])
-            return pre + struct.pack("<Q", (v.unit.signature or 0) if v.unit is not None else 0)
+            return pre + struct.pack(_E() + "Q", (v.unit.signature or 0) if v.unit is not None else 0)
         if f in (F["ref1"], F["ref2"], F["ref4"], F["ref8"], F["ref_addr"], F["ref_udata"]):
             target = v.offset if (isinstance(v, Die) and v.offset is not None) else 0
             if f == F["ref_addr"]:
@@ -285,12 +298,14 @@ class Forest:
             n = self.ref_size(unit, f)
             if final and not 0 <= val < (1 << (8 * n)):
                 raise RefOverflow(a)
-            return pre + (val & ((1 << (8 * n)) - 1)).to_bytes(n, "little")
+            return pre + (val & ((1 << (8 * n)) - 1)).to_bytes(n, _BO())
         raise ValueError("form %#x" % f)
 
     def layout(self):
         """Assign offsets, parents, units and abbreviation codes; returns (.debug_info, .debug_abbrev).
         A ref1/ref2 whose target turns out too far away is widened to ref4."""
+        global _BIG
+        _BIG = bool(getattr(self, "big", False))
         while True:
             try:
                 return self._layout_once()
@@ -348,19 +363,19 @@ class Forest:
             if u.types_section:
                 u.signature = 0x7700000000000000 + self.units.index(u)
                 kid = u.root.children[0].offset - u.offset
-                hdr = struct.pack("<HIB", u.version, u.abbrevs.offset, u.address_size) + struct.pack("<QI", u.signature, kid)
+                hdr = struct.pack(_E() + "HIB", u.version, u.abbrevs.offset, u.address_size) + struct.pack(_E() + "QI", u.signature, kid)
             elif u.version >= 5:
-                hdr = struct.pack("<HBBI", u.version, u.unit_type, u.address_size, u.abbrevs.offset)
+                hdr = struct.pack(_E() + "HBBI", u.version, u.unit_type, u.address_size, u.abbrevs.offset)
                 if u.unit_type == UT_type:
                     # type signature, and the offset (within the unit) of the DIE that is the type: the first child
                     kid = u.root.children[0].offset - u.offset if u.root.children else 0
                     u.signature = 0x1122334455660000 + (u.offset & 0xffff)
-                    hdr += struct.pack("<QI", u.signature, kid)
+                    hdr += struct.pack(_E() + "QI", u.signature, kid)
                 elif u.unit_type == UT_skeleton:
-                    hdr += struct.pack("<Q", 0x0badc0de00000000 + (u.offset & 0xffff))
+                    hdr += struct.pack(_E() + "Q", 0x0badc0de00000000 + (u.offset & 0xffff))
             else:
-                hdr = struct.pack("<HIB", u.version, u.abbrevs.offset, u.address_size)
-            unit = struct.pack("<I", len(hdr) + len(body)) + hdr + body
+                hdr = struct.pack(_E() + "HIB", u.version, u.abbrevs.offset, u.address_size)
+            unit = struct.pack(_E() + "I", len(hdr) + len(body)) + hdr + body
             assert len(info) == u.offset and len(unit) == u.size, (len(info), u.offset, len(unit), u.size)
             info += unit
         return bytes(info), bytes(ab)
@@ -484,8 +499,8 @@ def line_table(files):
         after += f + b"\0" + b"\0\0\0"                            # name, dir 0, mtime 0, length 0
     after += b"\0"
     prog = bytes([0, 1, 1])                                       # DW_LNE_end_sequence
-    body = struct.pack("<H", 4) + struct.pack("<I", len(after)) + after + prog
-    return struct.pack("<I", len(body)) + body
+    body = struct.pack(_E() + "H", 4) + struct.pack(_E() + "I", len(after)) + after + prog
+    return struct.pack(_E() + "I", len(body)) + body
 
 
 def build_alt_file(forest):
@@ -524,4 +539,6 @@ def build_file(forest, extra_sections=None, symbols=None):
         secs.append(s)
     if symbols is None:
         symbols = [Sym()]
+    if getattr(forest, "big", False):
+        return write_elf(secs, symbols, machine=21, big=True)       # a big-endian file (EM_PPC64)
     return write_elf(secs, symbols)
